@@ -354,7 +354,15 @@ func (c *childState) runHistory(hi int, h *history) (abort bool) {
 	defer os.RemoveAll(storage)
 	ctx, cancel := context.WithCancel(context.Background())
 	defer cancel()
-	router, _, err := app.VerifNewRouter(ctx, "/upload", storage, uint64(h.Tsbd), 0, "", &app.Config{})
+	sh := h.Shift
+	D := int64(c.lib.masterDur())
+	tu := &tuner{}
+	master := "V1"
+	cfg := &app.Config{}
+	if sh.StartNr != 0 {
+		cfg.Channels = []app.ChannelConfig{{Name: chName, StartNr: sh.StartNr}}
+	}
+	router, _, err := app.VerifNewRouter(ctx, "/upload", storage, uint64(h.Tsbd), 0, "", cfg)
 	if err != nil {
 		panic(err)
 	}
@@ -390,6 +398,8 @@ func (c *childState) runHistory(hi int, h *history) (abort bool) {
 		broken, fullLen := false, 0
 		var name, kind, dig string
 		var dts, dur int64
+		g, nIn := 0, 0
+		exp := expect{sn: []int{0}, exact: true}
 		if u.N == 0 {
 			data, name, kind = c.lib.initSeg(u.T), "init", "init"
 			dig = digest(data)
@@ -398,8 +408,12 @@ func (c *childState) runHistory(hi int, h *history) (abort bool) {
 			if nf < 1 {
 				nf = 1
 			}
-			b := c.lib.media(u.T, u.N, nf)
-			data, name, kind, dts, dur, dig = b.data, strconv.Itoa(u.N), "media", b.dts, b.dur, b.h
+			g = u.N + sh.Base
+			nIn = g + sh.K
+			ts := int64(c.lib.timescale(u.T))
+			b := c.lib.media(u.T, g, nIn, int64(sh.Toff)*ts/masterTs, nf)
+			data, name, kind, dts, dur, dig = b.data, strconv.Itoa(nIn), "media", b.dts, b.dur, b.h
+			exp = tu.expected(g, sh, ts, b.dts, D)
 			if u.A != 0 {
 				// an upload that breaks inside a box: the body is a proper prefix of the segment
 				cp := cutPoints(b.data)
@@ -468,7 +482,7 @@ func (c *childState) runHistory(hi int, h *history) (abort bool) {
 				case ev := <-procCh:
 					nproc++
 					complete, _ := ev["complete"].(bool)
-					if complete && ev["track"] == u.T && toInt(ev["seqNr"]) == u.N {
+					if complete && ev["track"] == u.T && toInt(ev["seqNrIn"]) == nIn {
 						processed = true
 						hk = hookObs(h.Tracks, ev)
 						break wait
@@ -519,7 +533,27 @@ func (c *childState) runHistory(hi int, h *history) (abort bool) {
 				}
 			}
 		}
-		c.emit(tr.E{"ev": "up", "i": i, "track": u.T, "kind": kind, "n": u.N, "status": status, "dts": dts, "dur": dur, "h": dig,
+		// the expected stored number: where the tuned-in numbering has two readings (startNr != 0) the one the receiver
+		// follows is taken from the listing (either is accepted)
+		sn := exp.sn[0]
+		if kind == "media" && status == http.StatusOK && len(exp.sn) > 1 {
+			has := func(n int) bool {
+				for _, f := range files[u.T].([]fileEnt) {
+					if f.N == n {
+						return true
+					}
+				}
+				return false
+			}
+			if !has(sn) && has(exp.sn[1]) {
+				sn = exp.sn[1]
+			}
+		}
+		if kind == "media" && status == http.StatusOK && u.T == master && u.A == 0 {
+			tu.masterAccepted(g, sh, D)
+		}
+		c.emit(tr.E{"ev": "up", "i": i, "track": u.T, "kind": kind, "n": u.N, "nin": nIn, "sn": sn, "sdts": exp.dts, "bx": exp.exact,
+			"tuned": tu.tuned, "shifted": tu.shifted, "status": status, "dts": dts, "dur": dur, "h": dig,
 			"cut": u.A, "broken": broken, "frags": u.F, "len": len(data), "processed": processed, "nproc": nproc, "files": files, "mpd": mo, "hook": hk})
 		if status < 0 || (status == http.StatusOK && kind == "media" && !processed) {
 			crashFree = false
@@ -532,7 +566,7 @@ func (c *childState) runHistory(hi int, h *history) (abort bool) {
 	reads, bad, distinct, sample := c.pl.take()
 	c.emit(tr.E{"ev": "poll", "reads": reads, "bad": bad, "distinct": distinct, "sample": sample})
 	lh := lastHook
-	c.emit(tr.E{"ev": "end", "hid": h.ID, "alive": crashFree, "range": lastRange, "published": havePub, "hookSeen": lh["have"] == true,
+	c.emit(tr.E{"ev": "end", "hid": h.ID, "alive": crashFree, "shifted": tu.shifted, "off": sh.Base + sh.K - sh.StartNr, "range": lastRange, "published": havePub, "hookSeen": lh["have"] == true,
 		"latest": toInt(lh["latest"]), "started": lh["started"] == true, "nrTracks": toInt(lh["nrTracks"])})
 	hookMu.Lock()
 	hookChan, hookCh = "", nil
